@@ -124,11 +124,12 @@ impl Callbacks for Cb {
             o.push(("vis".into(), J::Str(vis_str(tcx, did))));
             let exported = match kind {
                 DefKind::Fn | DefKind::AssocFn | DefKind::Const { .. } | DefKind::Static { .. } | DefKind::AssocConst { .. } => {
-                    eff.is_reachable(ldid)
+                    eff.is_exported(ldid)
                 }
                 _ => false,
             };
             o.push(("exported".into(), J::Bool(exported)));
+            o.push(("reachable".into(), J::Bool(eff.is_reachable(ldid))));
             // parent (for closures: the enclosing fn; for assoc fns: the impl)
             let parent = tcx.parent(did);
             o.push(("parent".into(), J::Str(def_path(tcx, parent))));
